@@ -27,7 +27,7 @@ type Op struct {
 	Grant  []string `json:"grant"`  // scopes the resource owner grants
 	Aud    []string `json:"aud"`    // requested (= granted) audience
 	Redir  string   `json:"redir"`  // authorize: "sent"|"omit"; redeem: "same"|"absent"|"diff"|"enc"
-	Pkce   string   `json:"pkce"`   // authorize: "none"|"S256"|"plain"|"plain_nm"
+	Pkce   string   `json:"pkce"`   // authorize: "none"|"S256"|"plain"|"plain_nm"|"plain_short"
 	Ver    string   `json:"ver"`    // redeem: "none"|"right"|"wrong"|"short"|"long"|"illegal"|"other"
 	Code   int      `json:"code"`
 	Tok    int      `json:"tok"`
@@ -248,6 +248,9 @@ func (w *World) doAuthorize(p int, op Op) Obs {
 		q.Set("code_challenge_method", "plain")
 	case "plain_nm":
 		q.Set("code_challenge", ver)
+	case "plain_short": // a malformed challenge: the verifier variant "short" is byte-equal to it
+		q.Set("code_challenge", ver[:42])
+		q.Set("code_challenge_method", "plain")
 	}
 	o = w.finishAuthorize(p, op, q, o)
 	if id := o.New["code"]; id > 0 {
@@ -316,12 +319,24 @@ func expInTicks(s string) int {
 	return int(d / Tick)
 }
 
+// protoSubject is the subject of the session prototype an application hands to NewAccessRequest. For the
+// grants that redeem an earlier authorization (code, refresh token, device code) the prototype must be
+// replaced by the stored session, so it carries a decoy subject that must never reach a token.
+func protoSubject(r *http.Request) string {
+	_ = r.ParseForm()
+	switch r.PostForm.Get("grant_type") {
+	case "authorization_code", "refresh_token", "urn:ietf:params:oauth:grant-type:device_code":
+		return "decoy-subject"
+	}
+	return Subject
+}
+
 // tokenCall runs NewAccessRequest / NewAccessResponse / Write* like an application would.
 func (w *World) tokenCall(p int, r *http.Request, grantAllRequested bool) (Obs, fosite.AccessRequester, fosite.AccessResponder) {
 	o := newObs()
 	ctx := w.ctx(p)
 	rec := httptest.NewRecorder()
-	ar, err := w.Provider.NewAccessRequest(ctx, r, NewSess(Subject))
+	ar, err := w.Provider.NewAccessRequest(ctx, r, NewSess(protoSubject(r)))
 	if err != nil {
 		o.Res = errName(err)
 		w.Provider.WriteAccessError(ctx, rec, ar, err)
@@ -504,6 +519,8 @@ func (w *World) doIntrospect(p int, op Op) Obs {
 		r.SetBasicAuth(url.QueryEscape(op.Client), "nope")
 	case "bearer":
 		r.Header.Set("Authorization", "Bearer "+w.tok("at", op.N))
+	case "bearer_rt":
+		r.Header.Set("Authorization", "Bearer "+w.tok("rt", op.N))
 	case "self":
 		r.Header.Set("Authorization", "Bearer "+w.tok(op.Kind, op.Tok))
 	}
@@ -523,7 +540,8 @@ func (w *World) doIntrospect(p int, op Op) Obs {
 		o.Res = errName(err)
 	case body["active"] == true:
 		o.Res = "active"
-		o.Note = fmt.Sprintf("%v|%v|%v|%v", body["client_id"], body["sub"], body["scope"], body["token_use"])
+		// the kind is not part of the JSON body; the responder and IntrospectToken's return value carry it
+		o.Note = "use=" + map[fosite.TokenUse]string{fosite.AccessToken: "at", fosite.RefreshToken: "rt"}[resp.GetTokenUse()]
 	default:
 		o.Res = "inactive"
 		if len(body) != 1 {
@@ -549,7 +567,11 @@ func (w *World) doClientChange(p int, op Op) Obs {
 	case "rm_scope":
 		c.Scopes = rm(c.Scopes, op.Val)
 	case "rm_aud":
-		c.Audience = rm(c.Audience, op.Val)
+		if op.Val == "*" {
+			c.Audience = []string{}
+		} else {
+			c.Audience = rm(c.Audience, op.Val)
+		}
 	case "rm_grant":
 		c.GrantTypes = rm(c.GrantTypes, op.Val)
 	case "restore":
